@@ -9,41 +9,47 @@
 (*   hooks fail            => Other                                         *)
 (*   finished iterations > iter_limit => IterationLimit   (strict >)        *)
 (*   nodes > node_limit    => NodeLimit                                     *)
+(*   elapsed > time_limit  => TimeLimit                                     *)
 (*   nothing changed       => Saturated                                     *)
 (* run_eqsat: rewrites -> hook -> saturated? -> iterations >= iter_limit    *)
+(*            -> elapsed (whole seconds) >= time_limit                      *)
+(* The clock is an abstract non-decreasing counter (milliseconds).          *)
 (***************************************************************************)
 EXTENDS RunnerOps
 
-CONSTANTS IterLimit, NodeLimit, MaxNodes
+CONSTANTS IterLimit, NodeLimit, MaxNodes, TimeLimit, MaxClock
 
 VARIABLES iter,      \* Runner: finished run_one calls; run_eqsat: its `iterations` counter
           stop,      \* "none" or the stop reason
-          nodes      \* e-node count after the last iteration
+          nodes,     \* e-node count after the last iteration
+          clock      \* time elapsed when the limits were last looked at
 
-vars == <<iter, stop, nodes>>
+vars == <<iter, stop, nodes, clock>>
 
 Reasons == {"saturated", "iter", "node", "time", "other"}
 
-Init == iter = 0 /\ stop = "none" /\ nodes \in 0..MaxNodes
+Init == iter = 0 /\ stop = "none" /\ nodes \in 0..MaxNodes /\ clock = 0
 
-RunnerStop(it, ret, hookOk, n) == RunnerStopL(IterLimit, NodeLimit, it, ret, hookOk, n)
+RunnerStop(it, ret, hookOk, n, e) == RunnerStopL(IterLimit, NodeLimit, TimeLimit, it, ret, hookOk, n, e)
 
-RunOne(ret, hookOk, n) ==
+RunOne(ret, hookOk, n, e) ==
   /\ stop = "none"
-  /\ stop' = RunnerStop(iter, ret, hookOk, n)
+  /\ e >= clock /\ clock' = e
+  /\ stop' = RunnerStop(iter, ret, hookOk, n, e)
   /\ iter' = iter + 1
   /\ nodes' = n
 
-EqsatStop(it, ret, hookOk) == EqsatStopL(IterLimit, it, ret, hookOk)
+EqsatStop(it, ret, hookOk, e) == EqsatStopL(IterLimit, TimeLimit, it, ret, hookOk, e)
 
-EqsatStep(ret, hookOk, n) ==
+EqsatStep(ret, hookOk, n, e) ==
   /\ stop = "none"
-  /\ stop' = EqsatStop(iter, ret, hookOk)
+  /\ e >= clock /\ clock' = e
+  /\ stop' = EqsatStop(iter, ret, hookOk, e)
   /\ iter' = IF stop' = "none" THEN iter + 1 ELSE iter
   /\ nodes' = n
 
-NextRunner == \E ret, hookOk \in BOOLEAN, n \in 0..MaxNodes : RunOne(ret, hookOk, n)
-NextEqsat  == \E ret, hookOk \in BOOLEAN, n \in 0..MaxNodes : EqsatStep(ret, hookOk, n)
+NextRunner == \E ret, hookOk \in BOOLEAN, n \in 0..MaxNodes, e \in 0..MaxClock : RunOne(ret, hookOk, n, e)
+NextEqsat  == \E ret, hookOk \in BOOLEAN, n \in 0..MaxNodes, e \in 0..MaxClock : EqsatStep(ret, hookOk, n, e)
 
 SpecRunner == Init /\ [][NextRunner]_vars /\ WF_vars(NextRunner)
 SpecEqsat  == Init /\ [][NextEqsat]_vars /\ WF_vars(NextEqsat)
@@ -55,5 +61,11 @@ TypeOK == stop \in Reasons \cup {"none"}
 (* every reason other than saturation is true of the final state            *)
 TruthRunner == /\ (stop = "iter" => iter - 1 > IterLimit)
                /\ (stop = "node" => nodes > NodeLimit)
+               /\ (stop = "time" => clock > TimeLimit)
+TruthEqsat  == /\ (stop = "iter" => iter >= IterLimit)
+               /\ (stop = "time" => clock >= TimeLimit)
+(* a limit that is surely exceeded does stop the loop                       *)
+MustStopRunner == clock > TimeLimit => stop # "none"
+MustStopEqsat  == clock >= TimeLimit => stop # "none"
 Terminates == <>(stop # "none")
 =============================================================================
